@@ -15,6 +15,7 @@
 #include <set>
 #include <functional>
 #include <unistd.h>
+#include <fcntl.h>
 
 using namespace OP2Utility;
 using mc::Ctx;
@@ -182,6 +183,27 @@ void buildSeeds(bool thorough)
 			gConstructed[2].push_back(m);
 		}
 	}
+	{
+		// palette sections whose length fields agree with each other but not with the 256 colours a palette holds: X more (or
+		// fewer) bytes declared in both the overall and the data length, and really present in the file
+		for (int64_t X : { int64_t(4), int64_t(16), int64_t(1024), int64_t(65536), int64_t(-4), int64_t(-1024) }) for (int which = 0; which < 2; ++which) {
+			std::vector<int> z(prtc::kDims, 0); z[0] = 2;
+			ref::RPrt r = prtc::makePrt(z);
+			std::vector<ref::Field> f;
+			auto b = ref::encodePrt(r, &f);
+			std::string pn = which ? "palette1" : "palette0";
+			std::size_t oOverall = 0, oData = 0;
+			for (auto& x : f) { if (x.name == pn + ".overallLength") oOverall = x.offset; if (x.name == pn + ".dataLength") oData = x.offset; }
+			if (!oOverall || !oData) continue;
+			mc::Mutant m; m.bytes = b;
+			mc::set32(m.bytes, oOverall, uint32_t(1048 + X)); mc::set32(m.bytes, oData, uint32_t(1024 + X));
+			std::size_t dataEnd = oData + 4 + 1024;
+			if (X > 0) m.bytes.insert(m.bytes.begin() + std::ptrdiff_t(dataEnd), std::size_t(X), uint8_t(0x5A));
+			else m.bytes.erase(m.bytes.begin() + std::ptrdiff_t(int64_t(dataEnd) + X), m.bytes.begin() + std::ptrdiff_t(dataEnd));
+			m.desc = "constructed prt whose " + pn + " section declares " + std::to_string(1024 + X) + " bytes of colours in both length fields and holds that many";
+			gConstructed[2].push_back(m);
+		}
+	}
 }
 
 // ---- follow-up operations on accepted objects ----
@@ -288,6 +310,7 @@ void build(Ctx& ctx)
 	// first in the list: each is picked up by a worker process that has not loaded anything yet, so state that survives
 	// between objects (function-local statics, caches) is still in its initial condition
 	gCases.push_back({ 2, 0, 0, 0 }); gCases.push_back({ 2, 1, 0, 0 });
+	if (ctx.thorough) gCases.push_back({ 3, 0, 0, 0 });
 	for (std::size_t s = 0; s < gSeeds.size(); ++s) { std::size_t chunk = gSeeds[s].loader == 2 ? 60 : 250; for (std::size_t f = 0; f < gSpaces[s]->size() + 1; f += chunk) gCases.push_back({ 0, s, f, std::min(f + chunk, gSpaces[s]->size() + 1) }); }
 	for (std::size_t l = 0; l < 3; ++l) for (std::size_t f = 0; f < gConstructed[l].size(); f += 40) gCases.push_back({ 1, l, f, std::min(f + 40, gConstructed[l].size()) });
 
@@ -300,9 +323,51 @@ void preparePixelFiles(const std::string& dir)
 	mc::writeFile(dir + "/exact.bmp", std::vector<uint8_t>(1078 + 4 + 16 + 4000, 0x42));
 }
 
+// a loaded bitmap with more than 2^31 bytes of pixel data (8 bit, 32768 x 65600, read from a sparse file): saving and flipping it
+// must stay inside the pixel container and free of overflowed arithmetic. Thorough tier only, and only where 24 GiB are free.
+struct DiscardingWriter : Stream::Writer {   // looks at the first and the last byte it is handed, keeps nothing
+	uint64_t total = 0; unsigned sum = 0;
+	void WriteImplementation(const void* buffer, std::size_t size) override { if (size) { const volatile uint8_t* p = static_cast<const volatile uint8_t*>(buffer); sum += p[0]; sum += p[size - 1]; } total += size; }
+};
+void giantBitmapCase(Ctx& ctx)
+{
+	uint64_t availKiB = 0;
+	if (FILE* f = std::fopen("/proc/meminfo", "r")) { char line[256]; while (std::fgets(line, sizeof line, f)) { unsigned long long v; if (std::sscanf(line, "MemAvailable: %llu kB", &v) == 1) availKiB = v; } std::fclose(f); }
+	if (availKiB < (uint64_t(24) << 20)) { ctx.count("giant/skipped-for-lack-of-memory"); ctx.state(); return; }
+	std::size_t savedCap = mc::alloc_cap; mc::alloc_cap = std::size_t(5) << 30;
+	std::string dir = ctx.freshDir("c11giant"), path = dir + "/giant.bmp";
+	ref::RBmp b; b.depth = 8; b.width = 32768; b.height = 0;
+	for (int i = 0; i < 256; ++i) b.palette.push_back({ uint8_t(i), uint8_t(i), uint8_t(i), 0 });
+	auto head = ref::encodeBmp(b);
+	const uint64_t rows = 65600, pixelBytes = rows * 32768;
+	mc::set32(head, 22, uint32_t(rows)); mc::set32(head, 2, uint32_t(head.size() + pixelBytes));
+	{ int fd = ::open(path.c_str(), O_CREAT | O_TRUNC | O_WRONLY, 0644); if (fd < 0 || ::write(fd, head.data(), head.size()) != ssize_t(head.size()) || ::ftruncate(fd, off_t(head.size() + pixelBytes)) != 0) std::abort(); ::close(fd); }
+	std::string key = "bitmap 8 bit 32768 x 65600 (2149580800 bytes of pixel data)";
+	ctx.sub(key + " :: ReadIndexed");
+	BitmapFile f;
+	auto o = mc::guarded([&] { f = BitmapFile::ReadIndexed(path); });
+	ctx.transition();
+	if (o.cls != 'R') { ctx.count("giant/refused"); }
+	else {
+		ctx.count("giant/loaded");
+		ctx.sub(key + " :: then WriteIndexed");
+		DiscardingWriter w;
+		auto ow = mc::guarded([&] { f.WriteIndexed(w); });
+		ctx.transition();
+		if (ow.cls == 'X') ctx.violation("C11/followup/non-std-exception", key + " :: WriteIndexed", "");
+		ctx.sub(key + " :: then Validate");
+		mc::guarded([&] { f.Validate(); });
+	}
+	f = BitmapFile();
+	mc::alloc_cap = savedCap;
+	mc::removeTree(dir);
+	ctx.state(); ctx.trace();
+}
+
 void runCase(std::size_t i, Ctx& ctx)
 {
 	const CaseDef& c = gCases[i];
+	if (c.kind == 3) { giantBitmapCase(ctx); return; }
 	std::string dir = ctx.freshDir("c11");
 	preparePixelFiles(dir);
 	if (c.kind == 0) {
@@ -341,7 +406,8 @@ int main(int argc, char** argv)
 	def.init = build;
 	def.ncases = [](Ctx&) { return gCases.size(); };
 	def.run = runCase;
-	def.describe = [](std::size_t i) { const auto& c = gCases[i]; return (c.kind == 0 ? gSeeds[c.seed].name : c.kind == 2 ? std::string("objects used in turn, order ") + std::to_string(c.seed) : "constructed loader " + std::to_string(c.seed)) + " " + std::to_string(c.from) + ".." + std::to_string(c.to); };
+	def.describe = [](std::size_t i) { const auto& c = gCases[i]; return (c.kind == 0 ? gSeeds[c.seed].name : c.kind == 3 ? std::string("giant bitmap") : c.kind == 2 ? std::string("objects used in turn, order ") + std::to_string(c.seed) : "constructed loader " + std::to_string(c.seed)) + " " + std::to_string(c.from) + ".." + std::to_string(c.to); };
 	def.caseTimeoutS = 120;
+	def.fsizeLimit = std::size_t(3) << 30;   // the sparse 2 GiB bitmap of the thorough tier
 	return mc::Main(argc, argv, def);
 }
